@@ -218,10 +218,7 @@ func (h *NFSProcedureHandler) handleCreate(body io.Reader, reply *RPCReply, auth
 		newNode.mu.Unlock()
 	}
 
-	dirPostAttrs, err := h.server.handler.GetAttr(node)
-	if err != nil {
-		return nfsErrorWithWcc(reply, mapError(err)), nil
-	}
+	dirPostAttrs := h.postOpAttrs(node, dirPreAttrs)
 
 	handle := h.server.handler.fileMap.Allocate(newNode)
 
@@ -347,10 +344,7 @@ func (h *NFSProcedureHandler) handleMkdir(body io.Reader, reply *RPCReply, authC
 		return nfsErrorWithWcc(reply, mapError(err)), nil
 	}
 
-	dirPostAttrs, err := h.server.handler.GetAttr(node)
-	if err != nil {
-		return nfsErrorWithWcc(reply, mapError(err)), nil
-	}
+	dirPostAttrs := h.postOpAttrs(node, dirPreAttrs)
 
 	handle := h.server.handler.fileMap.Allocate(newNode)
 
@@ -494,10 +488,7 @@ func (h *NFSProcedureHandler) handleSymlink(body io.Reader, reply *RPCReply, aut
 		}
 	}
 
-	dirPostAttrs, err := h.server.handler.GetAttr(node)
-	if err != nil {
-		return nfsErrorWithWcc(reply, mapError(err)), nil
-	}
+	dirPostAttrs := h.postOpAttrs(node, dirPreAttrs)
 
 	handle := h.server.handler.fileMap.Allocate(newNode)
 
